@@ -3555,7 +3555,10 @@ func (a *Association) handleForwardTSN(chunkTSN *chunkForwardTSN) []*packet {
 	// corresponding streams so that the abandoned chunks can be removed
 	// from the reassemblyQueue.
 	for _, forwarded := range chunkTSN.streams {
-		if s, ok := a.streams[forwarded.identifier]; ok {
+		// The skipped message may have been the first one on its stream, in
+		// which case the stream does not exist yet. It still has to learn that
+		// the sequence number was skipped, or it would wait for it forever.
+		if s := a.getOrCreateStream(forwarded.identifier, true, PayloadTypeUnknown); s != nil {
 			s.handleForwardTSNForOrdered(forwarded.sequence)
 		}
 	}
@@ -3596,12 +3599,20 @@ func (a *Association) handleIForwardTSN(chunkTSN *chunkIForwardTSN) []*packet {
 	a.payloadQueue.advanceCumulativeTSN(chunkTSN.newCumulativeTSN)
 
 	for _, forwarded := range chunkTSN.streams {
-		if s, ok := a.streams[forwarded.identifier]; ok {
-			if forwarded.unordered {
+		if forwarded.unordered {
+			// Unordered messages have no delivery cursor; only an existing
+			// stream can hold fragments that need to be purged.
+			if s, ok := a.streams[forwarded.identifier]; ok {
 				s.handleForwardTSNForUnorderedMID(forwarded.messageIdentifier)
-			} else {
-				s.handleForwardTSNForOrderedMID(forwarded.messageIdentifier)
 			}
+
+			continue
+		}
+		// The skipped message may have been the first one on its stream, in
+		// which case the stream does not exist yet. It still has to learn that
+		// the message identifier was skipped, or it would wait for it forever.
+		if s := a.getOrCreateStream(forwarded.identifier, true, PayloadTypeUnknown); s != nil {
+			s.handleForwardTSNForOrderedMID(forwarded.messageIdentifier)
 		}
 	}
 
